@@ -131,6 +131,75 @@ def _stale_pdus(report, f, cfg):
     return n
 
 
+def rule_recovery(report, prog):
+    """R6 recovery completeness: a NACK makes the Target send its last response again, whatever it was.  The answers the
+    Initiator accepts after a NACK must therefore cover every answer its exchange() accepts for an outstanding request: INF
+    (last / more) and, while it sends a chained payload, the ACK -- else a single corrupted ACK is unrecoverable."""
+    f = prog.functions.get('nfc.dep.Initiator.send_dep_req_recv_dep_res.<request_retransmission>') or \
+        next((g for q, g in prog.functions.items() if q.startswith('nfc.dep.Initiator.send_dep_req_recv_dep_res') and q.endswith('request_retransmission')), None)
+    if f is None:
+        raise AnalysisError('C04-R6: request_retransmission not found')
+    tests_ = [c for c in ast.walk(f.node) if isinstance(c, ast.Compare) and norm(c.left) == 'res.pfb.fmt' and isinstance(c.ops[0], ast.NotIn)]
+    if len(tests_) != 1:
+        raise AnalysisError('C04-R6: accepted-answer test of request_retransmission not found')
+    var = tests_[0].comparators[0]
+    kinds = set()
+    exprs = [var]
+    if isinstance(var, ast.Name):
+        exprs = [a.value for a in walk_no_nested(f.node) if isinstance(a, ast.Assign) and any(norm(t) == var.id for t in a.targets)]
+        exprs += [c.args[0] for c in ast.walk(f.node) if isinstance(c, ast.Call) and norm(c.func) in (var.id + '.append', var.id + '.add') and c.args]
+        exprs += [a.value for a in walk_no_nested(f.node) if isinstance(a, ast.AugAssign) and norm(a.target) == var.id]
+    for e in exprs:
+        for x in ast.walk(e):
+            if isinstance(x, ast.Attribute) and norm(x.value) == 'DEP_RES':
+                kinds.add(x.attr)
+    ex = prog.func('nfc.dep.Initiator.exchange')
+    accepted = set(x.attr for x in ast.walk(ex.node) if isinstance(x, ast.Attribute) and norm(x.value) == 'DEP_RES'
+                   and x.attr in ('LastInformation', 'MoreInformation', 'PositiveAck'))
+    report.check(accepted <= kinds and bool(accepted), 'C04-R6', key(f.qname, 'answers accepted after a NACK cover the answers exchange() accepts'), f.loc(tests_[0]),
+                 'after a NACK only %s are accepted although exchange() also expects %s: a corrupted %s response cannot be recovered by '
+                 'retransmission' % (sorted(kinds), sorted(accepted - kinds), '/'.join(sorted(accepted - kinds))))
+
+
+def rule_did(report, prog):
+    """R7 addressing: a peer that was given a DID answers only PDUs that carry it (Target: `req.did != self.did` -> ignored).
+    Every DEP_REQ / DEP_RES the two roles build therefore takes its DID from a parameter of the builder helper, flags it in the
+    PFB as `<param> is not None`, and every call of the helper passes self.did -- the recovery PDUs (ATN, NACK) included."""
+    n = 0
+    for q, f in sorted(prog.functions.items()):
+        if not q.startswith(('nfc.dep.Initiator.', 'nfc.dep.Target.')) or f.parent is None:
+            continue
+        cons = [c for c in walk_no_nested(f.node) if isinstance(c, ast.Call) and norm(c.func) in ('DEP_REQ', 'DEP_RES')]
+        if not cons:
+            continue
+        for c in cons:
+            n += 1
+            kw = {k.arg: k.value for k in c.keywords}
+            did = kw.get('did', c.args[1] if len(c.args) > 1 else None)
+            k_ = key(f.qname, 'PDU carries the DID it is given and flags it in the PFB')
+            okk = isinstance(did, ast.Name) and did.id in f.params
+            pfbs = [p for p in walk_no_nested(f.node) if isinstance(p, ast.Call) and norm(p.func).endswith('.PFB')]
+            if okk:
+                pk = {k.arg: k.value for k in pfbs[0].keywords} if pfbs else {}
+                flag = pk.get('did', pfbs[0].args[2] if pfbs and len(pfbs[0].args) > 2 else None)
+                okk = len(pfbs) == 1 and flag is not None and norm(flag) == did.id + ' is not None'
+            report.check(okk, 'C04-R7', k_, f.loc(c), '%s builds a PDU whose DID is not the `did` parameter flagged as `did is not None` '
+                         '(a peer with a DID ignores the PDU)' % f.qname)
+            if not okk:
+                continue
+            pos = f.params.index(did.id)
+            outer = f.parent
+            for call in ast.walk(outer.node):
+                if isinstance(call, ast.Call) and isinstance(call.func, ast.Name) and call.func.id == f.name:
+                    n += 1
+                    ck = {k.arg: k.value for k in call.keywords}
+                    arg = ck.get(did.id, call.args[pos] if len(call.args) > pos else None)
+                    report.check(arg is not None and norm(arg) == 'self.did', 'C04-R7',
+                                 key(outer.qname, '%s() is given self.did' % f.name, call), outer.loc(call),
+                                 '%s is built without the negotiated DID (`%s`): the peer ignores it' % (f.name, norm(call)))
+    report.floor('C04-R7', n, 20)
+
+
 def rule_pni(report, prog):
     n = 0
     for role in ('Initiator', 'Target'):
@@ -374,6 +443,8 @@ def run(report, prog, tier):
     res = Resolver(prog)
     rule_partition(report, prog)
     rule_reassembly(report, prog)
+    rule_recovery(report, prog)
+    rule_did(report, prog)
     rule_pni(report, prog)
     rule_frames(report, prog)
     c19.rule_budget(report, prog, res, rule='C04-R3')
